@@ -229,6 +229,37 @@ fn many_functions_probe<T: Sc>(rep: &mut Report) {
                         worst_ne = worst_ne.max(dot.abs() / (nrm.sqrt() * ymax * (n as f64).sqrt()));
                     }
                 }
+                // C03 certificates: every Jacobian column is orthogonal to the weighted basis functions, and
+                // 2 J^T r is the derivative of |r(w)|^2 (central difference of the problem's own residuals,
+                // which the two certificates above tie to the data)
+                if let Some(jm) = &os.jm {
+                    let mut worst_orth = 0.0f64;
+                    let jn = jm.iter().fold(0.0f64, |a, v| a + v.to64() * v.to64()).sqrt().max(1e-300);
+                    for q in 0..s {
+                        for j in 0..m {
+                            let mut dot = 0.0;
+                            let mut nrm = 0.0;
+                            for i in 0..n {
+                                dot += wi(i) * phi[(i, j)] * jm[(q * n + i, 0)].to64();
+                                nrm += (wi(i) * phi[(i, j)]).powi(2);
+                            }
+                            worst_orth = worst_orth.max(dot.abs() / (nrm.sqrt() * jn));
+                        }
+                    }
+                    rep.check("C03", worst_orth <= 1e-9, worst_orth, || det("a Jacobian column is not orthogonal to the range of the weighted basis matrix", worst_orth));
+                    let grad: f64 = 2.0 * (0..n * s).map(|i| jm[(i, 0)].to64() * r[i].to64()).sum::<f64>();
+                    let hstep = 1e-6;
+                    let f_at = |seq: &mut Box<dyn Prob<T>>, x: f64| -> Option<f64> {
+                        seq.set_params(&[T::of64(x)]);
+                        seq.residuals().map(|rr| rr.iter().map(|v| v.to64() * v.to64()).sum())
+                    };
+                    if let (Some(fp), Some(fm)) = (f_at(&mut seq, wv + hstep), f_at(&mut seq, wv - hstep)) {
+                        let fd = (fp - fm) / (2.0 * hstep);
+                        let dg = (grad - fd).abs() / grad.abs().max(fd.abs()).max(1e-300);
+                        rep.check("C03", dg <= 1e-5, dg, || det("2 J^T r is not the derivative of the projected objective (central difference)", dg));
+                    }
+                    seq.set_params(&[T::of64(wv)]);
+                }
                 rep.check("C02", worst_r <= 1e-9, worst_r, || det("residuals differ from W(Y - Phi C) recomputed from the coefficients", worst_r));
                 rep.check("C01", worst_ne <= 1e-9, worst_ne, || det("coefficients violate the normal equations: the residual is not orthogonal to the weighted basis functions", worst_ne));
             }
